@@ -5,7 +5,7 @@ from astropy.wcs.utils import pixel_to_pixel
 from astropy.wcs.wcsapi import BaseHighLevelWCS, SlicedLowLevelWCS, HighLevelWCSWrapper
 from scipy.optimize import leastsq
 from glue.config import autolinker, link_helper
-from glue.core.link_helpers import MultiLink
+from glue.core.link_helpers import LinkCollection, MultiLink
 
 
 __all__ = ['IncompatibleWCS', 'WCSLink', 'wcs_autolink', 'AffineLink', 'OffsetLink',
@@ -32,6 +32,21 @@ class OffsetLink(MultiLink):
 
     def backwards(self, *pixel_out):
         return tuple([po + o for (po, o) in zip(pixel_out, self.offsets)])
+
+    def __gluestate__(self, context):
+        # The transformation functions are methods of the link itself, so we
+        # store the parameters they are computed from instead
+        state = LinkCollection.__gluestate__(self, context)
+        state['offsets'] = context.do(np.asarray(self.offsets))
+        return state
+
+    @classmethod
+    def __setgluestate__(cls, rec, context):
+        return cls(data1=context.object(rec['data1']),
+                   data2=context.object(rec['data2']),
+                   cids1=context.object(rec['cids1']),
+                   cids2=context.object(rec['cids2']),
+                   offsets=context.object(rec['offsets']))
 
 
 class AffineLink(MultiLink):
@@ -70,6 +85,19 @@ class AffineLink(MultiLink):
         pixel_out = np.moveaxis(pixel_out, 0, -1)
         pixel_in = np.matmul(pixel_out, self._matrix_inv.T)
         return tuple(np.moveaxis(pixel_in, -1, 0))[:-1]
+
+    def __gluestate__(self, context):
+        state = LinkCollection.__gluestate__(self, context)
+        state['matrix'] = context.do(self._matrix)
+        return state
+
+    @classmethod
+    def __setgluestate__(cls, rec, context):
+        return cls(data1=context.object(rec['data1']),
+                   data2=context.object(rec['data2']),
+                   cids1=context.object(rec['cids1']),
+                   cids2=context.object(rec['cids2']),
+                   matrix=context.object(rec['matrix']))
 
 
 class IncompatibleWCS(Exception):
